@@ -107,14 +107,25 @@ def run(ctx, canary=False):
         total = rng.choice([1.0, 10.0, 57.3, 1000.0])
         method = rng.choice(["round", "round", "sample"])
         rows = rng.choice([None] + rows_menu + ([25, 400] if True else []))
+        if method == "sample" and rng.random() < 0.4:
+            rows = 60000            # enough records for the (very conservative) check of attribute pairs outside the cliques
         twice = rng.random() < 0.25
+        repot = (not twice) and rng.random() < 0.2
         info = {"structure": s["name"], "cliques": s["cliques"], "sizes": s["sz"], "elim_order": order, "dom_order": dom_order,
-                "zero_cells": sorted(zs), "total": total, "rows": rows, "method": method, "second_call_after_small_round": twice}
+                "zero_cells": sorted(zs), "total": total, "rows": rows, "method": method, "second_call_after_small_round": twice, "reparameterised_after_a_first_call": repot}
         ctx.case(json.dumps(info, sort_keys=True), nontrivial=True)
         try:
             m = build_model(s, order, dom_order, total)
+            if repot:
+                # the model object is re-parameterised after records were generated from it once
+                other = set(rng.sample(cells, rng.randint(0, max(0, len(cells) // 3))))
+                j0 = brute_joint(V, s["sz"], [(p_["at"], [0 if (k + 1, i + 1) in other else w for i, w in enumerate(p_["w"])]) for k, p_ in enumerate(s["pots"])])
+                if sum(j0.values()) > 0:
+                    m.potentials = potentials(m, s, other, [0.0] * len(s["pots"]))
+                    np.random.seed(1)
+                    m.synthetic_data(rows=4, method="round")
             m.potentials = potentials(m, s, zs, [0.0] * len(s["pots"]))
-            if rng.random() < 0.5 or twice:
+            if (rng.random() < 0.5 or twice) and not repot:
                 m.marginals = m.belief_propagation(m.potentials)
             np.random.seed(rng.randrange(2 ** 31))
             if twice:
@@ -145,6 +156,20 @@ def run(ctx, canary=False):
                     bad.append("records in a zero-probability cell of clique %s" % (cl,))
                 if method == "round" and np.max(np.abs(cnt - exp)) > B + 1e-6:
                     bad.append("clique %s: count differs from expectation by %.1f > bound %d (rows %d)" % (cl, float(np.max(np.abs(cnt - exp))), B, n))
+            if method == "sample" and n >= 10000 and not bad:
+                # sampling mode: every PAIR of attributes (also pairs that share no clique) must follow the model's joint. The
+                # allowance of 8 standard deviations + 8 makes a false alarm practically impossible (< 1e-14 per cell); a wrong
+                # dependence structure is off by a constant fraction of the rows.
+                for a, b in itertools.combinations(V, 2):
+                    cnt = np.zeros((s["sz"][a], s["sz"][b]))
+                    np.add.at(cnt, (df[a].values, df[b].values), 1)
+                    pr = np.array(marg_of_joint(V, s["sz"], joint, [a, b]), dtype=float).reshape(cnt.shape) / Z
+                    dev = np.abs(cnt - n * pr)
+                    lim = 8.0 * np.sqrt(n * pr * (1 - pr)) + 8.0
+                    if np.any(dev > lim):
+                        bad.append("sample mode: counts of (%s,%s) deviate from the model by %.0f (8-sigma allowance %.0f, rows %d)" % (
+                            a, b, float(np.max(dev)), float(lim.reshape(-1)[int(np.argmax(dev))]), n))
+                        break
         if bad:
             ctx.violation("synthetic data does not realise the model: " + "; ".join(bad[:3]), info, {"kind": "synth"})
         if n <= 400 and len(traces) < (600 if thorough else 80) and not bad:
